@@ -88,6 +88,8 @@ fn e_shpk(a: &[Vec<u8>], _: &mut Env) -> Result<bool, String> {
             // every selector the package lists, plus absent ones
             let mut sels: Vec<u32> = s.nodes.iter().map(|n| n.selector).take(64).collect();
             sels.extend_from_slice(&[0, 1, u32::MAX, 0x8000_0000]);
+            // arg1: selectors known to the caller (the aliases of a package are not visible on the parsed value)
+            sels.extend(arg(a, 1).chunks_exact(4).take(256).map(|c| u32::from_le_bytes([c[0], c[1], c[2], c[3]])));
             for sel in sels {
                 let _ = s.find_node(sel);
             }
